@@ -37,7 +37,7 @@ Outcome(g, o) ==
 StepOK(g, o, t) == LET r == Outcome(g, o) IN r.res = o.res /\ (r.res = "PANIC" \/ [r.m EXCEPT !.crashed = FALSE] = t)
 
 Bump(c, S) == [k \in (DOMAIN c) \cup S |-> (IF k \in DOMAIN c THEN c[k] ELSE 0) + (IF k \in S THEN 1 ELSE 0)]
-AddViol(v, line, names) == IF Cardinality(v) >= MaxViol THEN v ELSE v \cup {<<line, nm>> : nm \in names}
+AddViol(v, line, names) == v \cup {<<line, nm>> : nm \in {x \in names : Cardinality({w \in v : w[2] = x}) < MaxViol}}   \* at most MaxViol entries PER CLAUSE: a flood of one clause (a known finding) never hides another
 First == IF Trace[1].kind = "conc" THEN NewSM(2) ELSE ToM(Trace[1].state)
 Init == l = 1 /\ m = First /\ h = HistSJump(First) /\ viol = {} /\ drift = {} /\ cnt = [k \in {} |-> 0]
 Step ==
@@ -53,7 +53,9 @@ Step ==
              /\ cnt' = Bump(cnt, {"conc.episodes"} \cup (IF ln.blockedOnMutex > 0 THEN {"conc.blockedOnMutex"} ELSE {})
                                   \cup (IF \E a, b \in 1..Len(ln.calls) : a # b /\ ln.calls[a].seat = ln.calls[b].seat /\ ln.calls[a].seat # -1 THEN {"conc.sameSeat"} ELSE {}))
         ELSE IF ln.kind = "reset"
-        THEN m' = t /\ h' = HistSJump(t) /\ viol' = viol /\ drift' = drift /\ cnt' = Bump(cnt, {"runs"})
+        THEN m' = t
+             /\ h' = (IF "posAtNext" \in DOMAIN ln THEN HistSJumpWith(t, ln.posAtNext, SeqSetS(ln.occAtNext)) ELSE HistSJump(t))
+             /\ viol' = viol /\ drift' = drift /\ cnt' = Bump(cnt, {"runs"})
         ELSE LET h2 == HistSNext(h, m, t, o) IN
              /\ viol' = AddViol(viol, l + 1, FailedSeat(h, h2, m, t, o, Props))
              /\ drift' = IF StepOK(m, o, t) \/ Cardinality(drift) >= MaxViol THEN drift ELSE drift \cup {l + 1}
